@@ -94,12 +94,12 @@ func (k *Keeper) deployERC20ForBankCoin(
 	)
 	evmCfg := k.GetEVMConfig(ctx)
 	txConfig := k.TxConfig(ctx, gethcommon.BigToHash(big.NewInt(0)))
-	stateDB := k.Bank.StateDB
+	stateDB := k.Bank.TxStateDB(ctx)
 	if stateDB == nil {
 		stateDB = k.NewStateDB(ctx, txConfig)
 	}
 	defer func() {
-		k.Bank.StateDB = nil
+		k.Bank.ClearTxStateDB(ctx)
 	}()
 	evmObj := k.NewEVM(ctx, evmMsg, evmCfg, nil /*tracer*/, stateDB)
 	evmResp, err := k.CallContractWithInput(
